@@ -24,7 +24,7 @@ def check(model, R, tier):
                     'follows the operand dtype (no dtype-less np.zeros/ones/arange, NumPy-scalar or index array is promoted into it); (c) gradient buffers take dtype and shape from the tensor: '
                     'created as zeros_like(data), contributions only via in-place +=, the seed converted to the root dtype after a full shape check. float32-vs-float64 numerical agreement is not decided.',
         assumptions=['NumPy 2 (NEP 50) promotion rules as encoded in sa/domains/dtype.py', 'in-place += casts to the buffer dtype and refuses non-broadcastable shapes (NumPy semantics)'],
-        technique='abstract interpretation (dtype provenance lattice) + def-use / dominance checks on Tensor.__init__ and the seed path')
+        technique='abstract interpretation (dtype provenance lattice) + def-use / guard-table checks on Tensor.__init__ and the seed path + evaluation of matches_shape on concrete shape pairs')
 
 
 def check_scalar(model, R):
